@@ -76,8 +76,8 @@ PROPS = {
         units=["core", "kernels", "addmul", "addmul_n", "mul"],
         kani=dict(
             features=None,
-            quick=["c02::c02_inv_ring_cond_w0", "c02::c02_inv_ring_w1", "c02::c02_inv_ring_w8", "c02::c02_product_w8"],
-            thorough=["c02::c02_inv_ring_cond_w0", "c02::c02_inv_ring_w1", "c02::c02_inv_ring_w8", "c02::c02_inv_ring_w16", "c02::c02_product_w8"],
+            quick=["c02::c02_inv_ring_cond_w0", "c02::c02_inv_ring_w1", "c02::c02_inv_ring_w8", "c02::c02_product_w8", "c02::c02_mulc_zero_w128", "c02::c02_mulc_zero_w65", "c02::c02_mulc_zero_w192"],
+            thorough=["c02::c02_inv_ring_cond_w0", "c02::c02_inv_ring_w1", "c02::c02_inv_ring_w8", "c02::c02_inv_ring_w16", "c02::c02_product_w8", "c02::c02_mulc_zero_w128", "c02::c02_mulc_zero_w65", "c02::c02_mulc_zero_w192"],
             timeout_thorough=3000,
             bounds="inv_ring: BITS in {0,1,8,16} all values; Product: <= 2 elements at 8 bits",
         ),
